@@ -69,6 +69,9 @@ const std::vector<NameClass> &item_pool() {
         p.push_back({{W({'_', 0x1c6}), W({'_', 0x1c5}), W({'_', 0x1c4})}});
         p.push_back({{U("_e1"), U("_E1")}});
         p.push_back({{U("_e2"), U("_E2")}});
+        // canonically distinct names that are merely compatibility-equivalent (names are matched under NFD / case folding / NFC, not NFKC)
+        p.push_back({{W({'_', 'x', 0xb2}), W({'_', 'X', 0xb2})}});
+        p.push_back({{U("_x2"), U("_X2")}});
     }
     return p;
 }
@@ -83,6 +86,8 @@ const std::vector<NameClass> &code_pool() {
         p.push_back({{U("a[1]{2}"), U("A[1]{2}")}});
         p.push_back({{W({0xdf}), U("ss"), U("SS")}});
         p.push_back({{U("_under"), U("_UNDER")}});
+        p.push_back({{W({'q', 0xb2}), W({'Q', 0xb2})}});        // q + SUPERSCRIPT TWO versus q2: distinct codes
+        p.push_back({{U("q2"), U("Q2")}});
     }
     return p;
 }
